@@ -726,6 +726,10 @@ func (t *State) verifyMarked(tx *pb.Transaction) (bool, bool, error) {
 		return true, isRelyOnMarkedTx, nil
 	}
 	ok, isRelyOnMarkedTx, err := t.verifyRelyOnMarkedTxs(tx)
+	if !ok && err == nil {
+		// callers (State.VerifyTx -> Chain.SubmitTx, verifyDAGTxs) decide on the error alone
+		err = errors.New("tx relies on a marked tx")
+	}
 	return ok, isRelyOnMarkedTx, err
 }
 
